@@ -18,7 +18,7 @@ except Exception:
 
 def last(p):
     try:
-        return open(d + '/' + p).read().strip().splitlines()[-1]
+        return open(d + '/' + p, errors='replace').read().strip().splitlines()[-1]
     except Exception:
         return None
 
